@@ -143,7 +143,8 @@ impl PacketNumber {
         // The following code calculates a candidate value and makes sure it's within the packet
         // number window.
         let candidate = (expected & !mask) | truncated;
-        if expected.checked_sub(hwin).is_some_and(|x| candidate <= x) {
+        // (RFC 9000 A.3: never move the candidate beyond the 2^62 - 1 packet number limit)
+        if expected.checked_sub(hwin).is_some_and(|x| candidate <= x) && candidate < (1 << 62) - win {
             candidate + win
         } else if candidate > expected + hwin && candidate > win {
             candidate - win
